@@ -14,6 +14,7 @@ import Pff.Model.Entry
 import Pff.Model.Run
 import Pff.Model.Csv
 import Pff.Model.Path
+import Pff.Model.RfigcDb
 /-!
 Line-protocol driver: one request per line on stdin, one canonical reply per line on stdout.
 Run with `lake env lean --run Pff/Driver.lean`. Byte strings are hex ("-" = empty); lists of
@@ -603,6 +604,15 @@ def handle (toks : List String) : String :=
       | "genrel", [root, d, f] => showOpt ((Pff.Path.relpath cwd (Pff.Path.join2 d f) root).bind Pff.Path.path2unix)
       | _, _ => "bad-op"
     | _, _ => "bad-op"
+  | ["rfdbhdr"] => ",".intercalate (Pff.RfigcDb.header.map showCps)
+  | ["rfdbrow", p, m, sh, mt, z, e] =>
+    -- the csv fields of one database row; and the row parsed back from the text of a one-row database file
+    match hexToString p, m.toNat?, sh.toNat?, mt.toNat?, z.toNat?, hexToString e with
+    | some p, some m, some sh, some mt, some z, some e =>
+      let r : Pff.Rfigc.Row := { path := p, md5 := m, sha1 := sh, mtime := mt, size := z, ext := e }
+      let back := Pff.RfigcDb.readDb (Pff.Csv.writeRows [Pff.RfigcDb.header, Pff.RfigcDb.rowFields r])
+      s!"{",".intercalate ((Pff.RfigcDb.rowFields r).map showCps)} {if back == some [r] then "roundtrip" else "LOST"}"
+    | _, _, _, _, _, _ => "bad-op"
   | ["diffbytes", bs, s1, s2, a, b] =>
     match bs.toNat?, s1.toNat?, s2.toNat?, parseHex a, parseHex b with
     | some bs, some s1, some s2, some a, some b =>
